@@ -360,37 +360,73 @@ def planGraph (comps : List Comp) : Except Err Plan :=
   else
     .ok ((nonScalarsOf comps ++ scalarsOf comps).filterMap (fun p => gatherOp p.2 p.1))
 
+/-! ### Eager mode (`Tensor.__getitem__`), in the code's own pieces -/
+
+def Comp.isEagerScalar : Comp → Bool
+  | .int _ | .tScalar _ => true
+  | _ => false
+
+def Comp.isEagerSliced : Comp → Bool
+  | .slice lo hi st => !(decide (lo = .none ∧ hi = .none ∧ st = .none))
+  | _ => false
+
+def Comp.scalarVal : Comp → Int
+  | .int i | .tScalar i => i
+  | _ => 0
+
+/-- What eager mode registers for a component at axis `j` of extent `d`: a (non-trivial) slice
+gives `[start, stop, axis, step]` with the shape-based defaults (`s.start or 0`: a start of 0 and
+an omitted start coincide; step 0 falls into the code's `else` branch and is then rejected by
+Slice itself); a rank-0 index `i` gives `i:i+1:1`. -/
+def entryOfEager (c : Comp) (j : Nat) (d : Nat) : Option SliceEntry :=
+  match c with
+  | .slice lo hi st =>
+    if lo = .none ∧ hi = .none ∧ st = .none then Option.none
+    else
+      let step := (st.val?).getD 1
+      some ⟨j, (eagerBounds d lo.val? hi.val? step).1, (eagerBounds d lo.val? hi.val? step).2, step⟩
+  | .int i | .tScalar i => some ⟨j, i, i + 1, 1⟩
+  | _ => Option.none
+
+def eSlicedOf (comps : List Comp) : List (Comp × Nat) := comps.zipIdx.filter (fun p => p.1.isEagerSliced)
+def eScalarsOf (comps : List Comp) : List (Comp × Nat) := comps.zipIdx.filter (fun p => p.1.isEagerScalar)
+def eVecsOf (comps : List Comp) : List (Comp × Nat) := comps.zipIdx.filter (fun p => p.1.isVec)
+
+/-- `sliced_indices + scalar_indices`, in the code's order. -/
+def eagerEntriesOf (comps : List Comp) (shape : List Nat) : List SliceEntry :=
+  (eSlicedOf comps ++ eScalarsOf comps).filterMap (fun p => entryOfEager p.1 p.2 (shape.getD p.2 0))
+
 /-- `Tensor.__getitem__` for a tensor of the given shape.  Python ints are promoted to rank-0
 tensors first, so `int` and `tScalar` are the same thing here. -/
 def planEager (comps : List Comp) (shape : List Nat) : Except Err Plan :=
   if comps.length > shape.length then .error .valueError
+  else if (eSlicedOf comps).isEmpty && (eScalarsOf comps).isEmpty && (eVecsOf comps).isEmpty then
+    .ok [.identity]
   else
-    let idx := comps.zipIdx
-    let dimOf (a : Nat) : Int := (shape.getD a 0 : Nat)
-    let slicedE : List (Option SliceEntry) := idx.filterMap (fun p =>
-      match p.1 with
-      | .slice .none .none .none => Option.none
-      | .slice lo hi st =>
-        let step := (st.val?).getD 1
-        -- `s.start or 0`: a start of 0 and an omitted start coincide; step 0 falls in the
-        -- `else` branch of the code and is then rejected by Slice itself
-        let (s, e) := eagerBounds (dimOf p.2) lo.val? hi.val? step
-        some (some ⟨p.2, s, e, step⟩)
-      | _ => Option.none)
-    let scalars := idx.filter (fun p => match p.1 with | .int _ | .tScalar _ => true | _ => false)
-    let vecs := idx.filter (fun p => p.1.isVec)
-    let scalarVal (c : Comp) : Int := match c with | .int i | .tScalar i => i | _ => 0
-    if slicedE.isEmpty && scalars.isEmpty && vecs.isEmpty then .ok [.identity]
+    let pre : Plan :=
+      if (eSlicedOf comps).isEmpty && (eScalarsOf comps).length == 1 then
+        (eScalarsOf comps).map (fun p => .gatherScalar p.2 p.1.scalarVal)
+      else if !(eSlicedOf comps).isEmpty || !(eScalarsOf comps).isEmpty then
+        [.slice (eagerEntriesOf comps shape)]
+        ++ (if (eScalarsOf comps).isEmpty then [] else [.npSqueeze ((eScalarsOf comps).map (·.2))])
+      else []
+    .ok (pre ++ (eVecsOf comps).filterMap (fun p => gatherOp p.2 p.1))
+
+/-- Per-axis effect of eager mode's Slice(+squeeze) path on an axis of the original tensor. -/
+def eagerAxisSlicePath (c : Comp) (srcs : List Nat) : Except Err AxisMap :=
+  match c with
+  | .full => .ok (.pick srcs)
+  | .slice lo hi st =>
+    if lo = .none ∧ hi = .none ∧ st = .none then .ok (.pick srcs)
     else
-      let pre : Plan :=
-        if slicedE.isEmpty && scalars.length == 1 then
-          scalars.map (fun p => .gatherScalar p.2 (scalarVal p.1))
-        else if !slicedE.isEmpty || !scalars.isEmpty then
-          [.slice (slicedE.filterMap id ++ scalars.map (fun p =>
-              ⟨p.2, scalarVal p.1, scalarVal p.1 + 1, 1⟩))]
-          ++ (if scalars.isEmpty then [] else [.npSqueeze (scalars.map (·.2))])
-        else []
-      .ok (pre ++ vecs.filterMap (fun p => gatherOp p.2 p.1))
+      let step := (st.val?).getD 1
+      if step == 0 then .error .valueError
+      else .ok (.pick (onnxSliceList srcs (eagerBounds srcs.length lo.val? hi.val? step).1
+                          (eagerBounds srcs.length lo.val? hi.val? step).2 step))
+  | .int i | .tScalar i => do
+    let s ← single? (onnxSliceList srcs i (i + 1) 1)
+    pure (.drop s)
+  | _ => .error .refused
 
 deriving instance DecidableEq for Except
 
